@@ -41,15 +41,27 @@ def check_c20(args):
     for i in range(n):
         ncol = rnd.choice([1, 2, 3, 4])
         cols = [rnd.choice(list(TYPES)) for _ in range(ncol)]
-        rows = [[TYPES[c][1](rnd) for c in cols] for _ in range(rnd.choice([0, 1, 2, 3, 5]))]
+        rows = [[TYPES[c][1](rnd) for c in cols] for _ in range(rnd.choice([0, 1, 2, 3, 5, 7]))]
+        # every other table is filled by several INSERTs (the export then sees several chunks); in half of those the
+        # rows without NULL come first, so that a column's first NULL appears in a later chunk
+        parts = [rows]
+        if i % 2 and len(rows) >= 2:
+            if i % 4 == 1:
+                rows.sort(key=lambda r2: any(x is None for x in r2))
+            cut = sorted({rnd.randrange(1, len(rows)) for _ in range(rnd.choice([1, 2]))})
+            parts = [rows[a:b] for a, b in zip([0] + cut, cut + [len(rows)])]
         # values outside TLC's 32-bit integers are kept as text cells in the record (rendering is the same)
         opt, delim, quote, header = OPTS[i % len(OPTS)]
         names = [f"c{k}" for k in range(ncol)]
         ddl = ", ".join(f"{nm} {TYPES[c][0]}" for nm, c in zip(names, cols))
         steps = [{"sql": f"create table t({ddl})"}, {"sql": f"create table u({ddl})"}]
-        if rows:
-            steps.append({"sql": "insert into t values " + ", ".join("(" + ", ".join(G.lit(x) for x in r2) + ")" for r2 in rows)})
-        steps += [{"sql": f"copy t to '${{DIR}}/out.csv' {opt}"}, {"op": "readfile", "name": "out.csv"},
+        for part in parts:
+            if part:
+                steps.append({"sql": "insert into t values " + ", ".join("(" + ", ".join(G.lit(x) for x in r2) + ")" for r2 in part)})
+        # the sequence in which a scan returns the rows of several INSERTs is the engine's business: it is observed
+        # (the export is a scan of the same unchanged table), the rows themselves are the inserted ones
+        steps += [{"sql": "select * from t"},
+                  {"sql": f"copy t to '${{DIR}}/out.csv' {opt}"}, {"op": "readfile", "name": "out.csv"},
                   {"sql": f"copy u from '${{DIR}}/out.csv' {opt}"}, {"sql": "select * from u"}]
         for eng in ("mem", "disk"):
             runs.append({"id": f"{i}.{eng}", "engine": eng, "steps": steps})
@@ -64,8 +76,16 @@ def check_c20(args):
             raise ToolError(str(out))
         res = out["res"]
         info = {"columns": c["cols"], "rows": c["rows"], "options": c["opt"], "engine": run["engine"]}
-        exp, rd, imp, sel = res[-4], res[-3], res[-2], res[-1]
+        scan, exp, rd, imp, sel = res[-5], res[-4], res[-3], res[-2], res[-1]
         evals += 1
+        if not scan["ok"] or sorted(json.dumps(r2) for r2 in scan["rows"]) != sorted(json.dumps([enc(x) for x in r2]) for r2 in c["rows"]):
+            v.violation(dict(info, scan=scan), f"the table does not hold the inserted rows before the export: {str(scan)[:200]}")
+            continue
+        order = {}
+        for k, r2 in enumerate(c["rows"]):
+            order.setdefault(json.dumps([enc(x) for x in r2]), []).append(k)
+        c = dict(c, rows=[c["rows"][order[json.dumps(r2)].pop(0)] for r2 in scan["rows"]])
+        info["rows"] = c["rows"]
         if not exp["ok"] or not rd["ok"]:
             v.violation(dict(info, export=exp), f"COPY TO failed: {exp.get('err')}")
             continue
